@@ -42,6 +42,7 @@ Ops(s) ==
                     \E c \in 1..NExt(s.cfg) : v[c] # 0}}
    ELSE {})
   \cup {[a |-> "clear"]}
+  \cup (IF s.cfg.kind = "recurrent" /\ s.fb # -1 THEN {[a |-> "clear_fb"]} ELSE {})
   \cup (IF s.w < WMax THEN {[a |-> "learn"]} ELSE {})
 
 Init == \E cfg \in Cfgs : st = InitState(cfg, 0, [n \in 1..cfg.nn |-> 0])
